@@ -719,6 +719,14 @@ func runRows(e *core.Env, prop string) error {
 			e.Add(c)
 		}
 	}
+	{
+		// integrations of one source share one caching client (C11: the stored values, C12: no log the
+		// filters keep is lost on the way, C13: a matching log yields its row)
+		chain := transferChain(5, 3+e.Seed%5)
+		node := simnode.NewNode(chain)
+		e2eSharedClient(e, node, chain)
+		node.Close()
+	}
 	if prop == "C11" {
 		// the whole path: JSON-RPC node -> jrpc2.Client.Get -> Integration.Insert -> COPY rows, for log,
 		// transaction and trace declarations (two logs and two trace actions with distinct values in
